@@ -277,8 +277,10 @@ int _GD_Seek(DIRFILE *D, gd_entry_t *E, off64_t offset, unsigned int mode)
     GD_RETURN_ERROR(D);
   }
 
-  if (offset < 0)
+  if (offset < 0) {
+    D->recurse_level--;
     GD_SET_RETURN_ERROR(D, GD_E_RANGE, GD_E_OUT_OF_RANGE, NULL, 0, NULL);
+  }
 
   switch (E->field_type) {
     case GD_RAW_ENTRY:
